@@ -35,6 +35,7 @@ type world struct {
 	nslow   int
 	callers []int // caller numbers of the invocations submitted so far
 	traceAs map[int]int // caller -> caller whose trace header it sends (astrace=)
+	nrestore int        // restores issued in this case
 }
 
 type slowUpload struct {
@@ -504,8 +505,17 @@ func (w *world) apply(ws []string) bool {
 		if len(ws) > 2 {
 			key = ws[2]
 		}
+		// the expiry goes down and up from one restore of a case to the next (3h, 1h, 2h, 30m, …): the
+		// credentials served must be those of the most recent restore whatever their expiry (seed C18-7)
+		w.nrestore++
+		exp := time.Now().Add(3 * time.Hour)
+		if w.nrestore%2 == 0 {
+			exp = time.Now().Add(time.Duration(120/w.nrestore) * time.Minute)
+		} else if w.nrestore > 1 {
+			exp = time.Now().Add(2 * time.Hour)
+		}
 		go func() {
-			_, err := s.Srv.Restore(&interop.Restore{AwsKey: key, AwsSecret: "s2", AwsSession: "t2", CredentialsExpiry: time.Now().Add(time.Hour), RestoreHookTimeoutMs: int64(ms)})
+			_, err := s.Srv.Restore(&interop.Restore{AwsKey: key, AwsSecret: "s2", AwsSession: "t2", CredentialsExpiry: exp, RestoreHookTimeoutMs: int64(ms)})
 			var ue interop.ErrRestoreHookUserError
 			if errors.As(err, &ue) {
 				s.L.Add("restore done err=userError:%s", ue.UserError.Type)
